@@ -53,6 +53,7 @@ MachineConfig machine_config_for(const Case &c, const DomainInfo &di) {
   mc.max_depth = (int)c.pint("max_depth", 6);
   mc.inter = c.pbool("inter_machine");
   mc.magnitude_bits = (di.caps & CAP_INT64) ? 40 : 120;
+  mc.remake_outside = c.pbool("remake_outside");
   return mc;
 }
 
